@@ -10,7 +10,7 @@
    prints the oom marker for them).  Inside the fragment mavenCategory of the rune at a
    rune boundary coincides with the per-byte class used below, the three bytes of the
    infinity sign all being numeric. *)
-From DepsDev Require Import Lib.Base Semver.Version Semver.Maven Gen.SemverTables.
+From DepsDev Require Import Lib.Base Semver.Version Semver.Maven Gen.SemverTables Gen.MavenVariants.
 Local Open Scope Z_scope.
 
 (* ---------- the modelled fragment ---------- *)
@@ -105,8 +105,9 @@ Fixpoint mvn_scan (fuel : nat) (s : bytes) (first : bool) (prev_cat : Z) (racc :
 
 (* isEmptyMavenElem tests s == "0": a zero spelled with several digits (00) is not empty and is
    not trimmed, whereas ComparableVersion reads it as the null item 0 (finding F-C02-11).
-   The switch selects the repaired test (every all-zero numeral is empty). *)
-Definition mvn_fix_zero_spelling : bool := false.
+   The switch selects the repaired test (every all-zero numeral is empty); gotables reads from
+   maven.go which of the two forms the tree has. *)
+Definition mvn_fix_zero_spelling : bool := go_mvn_zero_spelling_fixed.
 Definition all_zeros (s : bytes) : bool :=
   match s with [] => false | _ => forallb (fun c => N.eqb c 48) s end.
 Definition is_empty_elem_with (zfix : bool) (s : bytes) : bool :=
